@@ -17,7 +17,7 @@ import (
 type ChunkID = uint32
 
 // Chunk FourCC identifiers re-exported from the container package.
-var (
+const (
 	FourCCRIFF = container.FourCCRIFF
 	FourCCWEBP = container.FourCCWEBP
 	FourCCVP8  = container.FourCCVP8
